@@ -296,7 +296,7 @@ static void ChildMain(const std::function<void()> & body, const std::vector<unsi
    GetMuscleVerifHooksRef() = NULL;
    for (int i = 0; i < S->nthr; i++) if (S->thr[i].os) { pthread_join(*S->thr[i].os, NULL); delete S->thr[i].os; S->thr[i].os = NULL; }   // harness threads the body did not join itself
    t_tid = -1;
-   Report(S->failed ? "VIOLATION" : "OK", false);
+   Report(S->failed ? "VIOLATION" : "OK", S->failed);   // after a violation the process is not reused: its state may be corrupted
 }
 
 std::string ChoicesToString(const std::vector<unsigned char> & c) { std::string s; for (size_t i = 0; i < c.size(); i++) { if (i) s += ","; s += verif::Fmt("%d", (int)c[i]); } return s; }
@@ -435,7 +435,7 @@ void Explore(const std::string & partName, const std::string & configArgs, const
    std::vector<std::vector<unsigned char> > work; work.push_back(std::vector<unsigned char>());
    unsigned long executions = 0, totalPoints = 0, totalChoicePoints = 0; unsigned long perBound[8] = {0, 0, 0, 0, 0, 0, 0, 0};
    std::set<verif::Hash128> observations; std::map<std::string, unsigned long> statusCounts; std::map<std::string, int> perKey; std::map<std::string, unsigned long> keyCounts;
-   std::vector<std::string> notes; bool capped = false; std::string cap; unsigned long maxPointsSeen = 0; size_t nbusy = 0;
+   std::vector<std::string> notes; bool capped = false; std::string cap; unsigned long maxPointsSeen = 0; size_t nbusy = 0; unsigned long failingExecutions = 0;
    std::vector<std::string> samples;
    while (!work.empty() || nbusy > 0) {
       for (size_t w = 0; w < g_pool.size() && !work.empty(); w++) if (!g_pool[w].busy) {
@@ -455,7 +455,7 @@ void Explore(const std::string & partName, const std::string & configArgs, const
          Outcome o; bool have = false;
          if (pf[k].revents) {
             uint32_t len = 0; std::string text; bool ok = ReadAll(wk.respFd, &len, sizeof(len)); if (ok && len) { text.resize(len); ok = ReadAll(wk.respFd, &text[0], len); }
-            if (ok) { ParseOutcome(text, o); have = true; if (o.status != "OK" && o.status != "VIOLATION") { ReapWorker(wi, NULL); SpawnWorker(wi); } }   // terminal status: that worker has exited
+            if (ok) { ParseOutcome(text, o); have = true; if (o.status != "OK") { ReapWorker(wi, NULL); SpawnWorker(wi); } }   // terminal status: that worker has exited
             else {
                int st = 0; ReapWorker(wi, &st); o.status = "CRASH"; o.points = 0; have = true;
                o.key = WIFSIGNALED(st) ? verif::Fmt("crash:sig%d", WTERMSIG(st)) : (WEXITSTATUS(st) == 87) ? "crash:asan" : (WEXITSTATUS(st) == 88) ? "crash:ubsan" : verif::Fmt("crash:exit%d", WEXITSTATUS(st));
@@ -480,6 +480,7 @@ void Explore(const std::string & partName, const std::string & configArgs, const
          if (o.status != "OK") {
             const std::string key = o.key;
             keyCounts[key]++;
+            if (++failingExecutions > 300 && !capped) { capped = true; cap = "more than 300 failing executions in this configuration: exploration stopped early"; work.clear(); }
             if (perKey[key]++ < 3) {
                // replay twice: identical status, key and observation required before the failure is believed
                const std::vector<unsigned char> & ch = o.taken.size() ? o.taken : prefix;
